@@ -158,9 +158,12 @@ def is_filter_empty(filter_like: Filter) -> bool:
   if isinstance(filter_like, bool):
     return not filter_like
   if isinstance(filter_like, DenyList):
-    # if any arbitrary collection is in the denylist it matches everything so
-    # the filter is empty. This is checked with a stub.
-    return in_filter(filter_like.deny, '__flax_internal_stub__')
+    # a DenyList is empty only if the denied filter matches every collection.
+    deny = filter_like.deny
+    if isinstance(deny, DenyList):
+      # DenyList(DenyList(x)) matches exactly what x matches.
+      return is_filter_empty(deny.deny)
+    return deny is True
   raise errors.InvalidFilterError(filter_like)
 
 
